@@ -43,3 +43,28 @@ M("c09-leaf-msgs-append", "C09", "_diagnostics.py", "                if relation
 M("c09-twin-rename-result", "C09", "_operations/_calculation.py", "        result = set(target.columns)\n        result.add(self.tag)\n        return result", "        cols = set(target.columns)\n        cols.add(self.tag)\n        return cols", expect="silent")
 M("c09-twin-copy-ctor", "C09", "sql/_payload.py", "self, where=list(self.where), columns_available=dict(self.columns_available)", "self, where=[*self.where], columns_available={**self.columns_available}", expect="silent")
 M("c09-twin-frozenset-cols", "C09", "_operations/_calculation.py", "        result = set(target.columns)\n        result.add(self.tag)\n        return result", "        return frozenset(target.columns | {self.tag})", expect="silent")
+
+# ---------------------------------------------------------------- C20
+CALC = "_operations/_calculation.py"
+PROJ = "_operations/_projection.py"
+M("c20-calc-drop-tag-check", "C20", CALC, "        if self.tag in target.columns:\n            raise ColumnError(f\"Calculated column {self.tag} is already present in {target}.\")\n", "", rule="R20.2")
+M("c20-calc-wrong-exc", "C20", CALC, "            raise ColumnError(f\"Calculated column {self.tag} is already present in {target}.\")", "            raise ValueError(f\"Calculated column {self.tag} is already present in {target}.\")", rule="R20.2")
+M("c20-calc-weaken", "C20", CALC, "        if not (self.expression.columns_required <= target.columns):", "        if not (self.expression.columns_required <= target.columns) and not target.is_locked:", rule="R20.2")
+M("c20-proj-superset", "C20", PROJ, "        if not self.columns <= target.columns:", "        if not self.columns >= target.columns:", rule="R20.2")
+M("c20-sort-drop-loop", "C20", "_operations/_sort.py", "        for term in self.terms:\n            if not term.expression.columns_required <= target.columns:\n                raise ColumnError(\n                    f\"Sort term {term} for target relation {target} needs \"\n                    f\"columns {set(term.expression.columns_required - target.columns)}.\"\n                )\n", "", rule="R20.2")
+M("c20-chain-drop-columns", "C20", "_operations/_chain.py", "        if lhs.columns != rhs.columns:\n            raise ColumnError(f\"Mismatched chain columns: {set(lhs.columns)} != {set(rhs.columns)}.\")\n", "", rule="R20.2")
+M("c20-chain-subset", "C20", "_operations/_chain.py", "        if lhs.columns != rhs.columns:", "        if not lhs.columns >= rhs.columns:", rule="R20.2")
+M("c20-apply-self", "C20", "_unary_operation.py", "target.engine.backtrack_unary(operation, target, preferred_engine)", "target.engine.backtrack_unary(self, target, preferred_engine)", rule="R20.1")
+M("c20-apply-late-begin", "C20", "_binary_operation.py", "        operation = self._begin_apply(lhs, rhs)\n        return lhs.engine.append_binary(operation, lhs, rhs)", "        return lhs.engine.append_binary(self, lhs, rhs)", rule="R20.1")
+M("c20-factory-drop-option", "C20", "_relation.py", "        return Projection(frozenset(columns)).apply(\n            self,\n            preferred_engine=preferred_engine,\n            backtrack=backtrack,\n            transfer=transfer,\n            require_preferred_engine=require_preferred_engine,\n        )", "        return Projection(frozenset(columns)).apply(\n            self,\n            preferred_engine=preferred_engine,\n            backtrack=backtrack,\n            transfer=transfer,\n        )", rule="R20.1")
+M("c20-factory-finish", "C20", "_relation.py", "        return Chain().apply(self, rhs)", "        return Chain()._finish_apply(self, rhs)", rule="R20.1")
+M("c20-getitem-step", "C20", "_relation.py", "        if key.step not in (1, None):\n            raise TypeError(\"Slices with non-unit step are not supported.\")\n", "", rule="R20.2")
+M("c20-processor-bypass", "C20", "_processor.py", "                    return operation.apply(new_target), False", "                    return operation._finish_apply(new_target), False", rule="R20.3")
+M("c20-join-engine", "C20", "_operations/_join.py", "        if lhs.engine != rhs.engine:\n            raise EngineError(f\"Mismatched join engines: {lhs.engine} != {rhs.engine}.\")\n", "", rule="R20.2")
+M("c20-supported-by", "C20", "_unary_operation.py", "        if not self.is_supported_by(target.engine):\n            raise EngineError(f\"Operation {self} is not supported by engine {target.engine}.\")\n", "", rule="R20.2")
+M("c20-slice-negative", "C20", "_operations/_slice.py", "        if self.start < 0:\n            raise ValueError(f\"Slice start {self.start} is negative.\")\n", "", rule="R20.2")
+M("c20-join-min-partial", "C20", "_operations/_join.py", "        if not (self.min_columns <= fix.columns):", "        if not (self.min_columns <= fix.columns) and is_lhs:", rule="R20.2")
+M("c20-twin-issubset", "C20", PROJ, "        if not self.columns <= target.columns:", "        if not self.columns.issubset(target.columns):", expect="silent")
+M("c20-twin-difference", "C20", CALC, "        if not (self.expression.columns_required <= target.columns):", "        if self.expression.columns_required - target.columns:", expect="silent")
+M("c20-twin-reorder-checks", "C20", "_operations/_chain.py", "        if lhs.engine != rhs.engine:\n            raise EngineError(f\"Mismatched chain engines: {lhs.engine} != {rhs.engine}.\")\n        if lhs.columns != rhs.columns:\n            raise ColumnError(f\"Mismatched chain columns: {set(lhs.columns)} != {set(rhs.columns)}.\")\n",
+  "        if lhs.columns != rhs.columns:\n            raise ColumnError(f\"Mismatched chain columns: {set(lhs.columns)} != {set(rhs.columns)}.\")\n        if not lhs.engine == rhs.engine:\n            raise EngineError(f\"Mismatched chain engines: {lhs.engine} != {rhs.engine}.\")\n", expect="silent")
